@@ -22,6 +22,14 @@ let () = register "kmodel" (fun () ->
   Printf.printf "OK %d %s\n" (int_of_nat inv)
     (String.concat " " (List.map (function RetBool true -> "T" | RetBool false -> "F" | RetData -> "D" | Raise -> "R") outs)))
 
+(* wrapper <alarm_route> <n> (<native> <alarm>)*  ->  OK <status token after each run> *)
+let () = register "wrapper" (fun () ->
+  let rt = next_bool () in
+  let xs = next_list (fun () -> let s = next () in let a = next_bool () in { run_native = status_of_int s; run_alarm = a }) in
+  let outs = run_wrapper rt xs in
+  Printf.printf "OK %s\n" (String.concat " " (List.map (function
+    | None -> "-" | Some Optimal -> "0" | Some Infeasible -> "1" | Some TimeLimit -> "2" | Some Other -> "3") outs)))
+
 let () = register "mgs" (fun () ->
   let sk = next_bool () in let lb = next_nat () in let n = next_nat () in let cuts = next_nat () in
   let sts = next_list next_raw in print_outcome (run_mgs sk lb n cuts sts))
